@@ -134,6 +134,69 @@ theorem put_spec (c : Cache) (cid : Nat) (k : List Char) (rc : RC) (x : Nat) : P
     simp only [Cache.put]
     exact List.Pairwise.sublist (List.drop_sublist _ _) this
 
+/-! ### any sequence of cache calls (= any interleaving of the threads of one worker, each call being atomic) -/
+
+/-- capacity bound and key uniqueness survive any sequence of calls -/
+theorem applyOps_bound (ops : List CacheOp) : ∀ (c : Cache), KeysDistinct c.entries → c.entries.length ≤ c.cap →
+    (applyOps c ops).1.cap = c.cap ∧ KeysDistinct (applyOps c ops).1.entries ∧
+      (applyOps c ops).1.entries.length ≤ c.cap := by
+  induction ops with
+  | nil => exact fun c h1 h2 => ⟨rfl, h1, h2⟩
+  | cons op rest ih =>
+    intro c h1 h2
+    cases op with
+    | get cid k now rf =>
+      have g := get_spec c cid k now rf
+      have := ih (c.get cid k now rf).1 (g.distinct h1) (by rw [g.cap]; exact Nat.le_trans g.len h2)
+      simp only [applyOps]
+      rw [g.cap] at this
+      exact this
+    | put cid k rc x =>
+      have p := put_spec c cid k rc x
+      have := ih (c.put cid k rc x) (p.distinct h1) (by rw [p.cap]; exact p.len)
+      simp only [applyOps]
+      rw [p.cap] at this
+      exact this
+
+/-- whatever a `get` returns, and whatever is in the cache afterwards, was in the cache at the start or was `put` by one
+    of the calls, under the same key — for any property `P` of (call id, identity key, resolved call) -/
+theorem applyOps_from (P : Nat → List Char → RC → Prop) (ops : List CacheOp) : ∀ (c : Cache),
+    (∀ e ∈ c.entries, P e.cid e.ikey e.rc) →
+    (∀ cid k rc x, CacheOp.put cid k rc x ∈ ops → P cid k rc) →
+    (∀ e ∈ (applyOps c ops).1.entries, P e.cid e.ikey e.rc) ∧
+    (∀ cid k now rf rc, (CacheOp.get cid k now rf, some rc) ∈ (applyOps c ops).2 → P cid k rc) := by
+  induction ops with
+  | nil => exact fun c h _ => ⟨h, fun _ _ _ _ _ hm => by simp [applyOps] at hm⟩
+  | cons op rest ih =>
+    intro c hc hput
+    cases op with
+    | get cid k now rf =>
+      have g := get_spec c cid k now rf
+      have hc' : ∀ e ∈ (c.get cid k now rf).1.entries, P e.cid e.ikey e.rc := by
+        intro e he
+        obtain ⟨e0, he0, h1, h2, h3, _⟩ := g.sub e he
+        rw [h1, h2, h3]; exact hc e0 he0
+      obtain ⟨i1, i2⟩ := ih (c.get cid k now rf).1 hc' (fun a b d x hm => hput a b d x (List.mem_cons_of_mem _ hm))
+      refine ⟨by simpa only [applyOps] using i1, ?_⟩
+      intro cid' k' now' rf' rc' hm
+      simp only [applyOps, List.mem_cons, Prod.mk.injEq, CacheOp.get.injEq] at hm
+      rcases hm with ⟨⟨h1, h2, _, _⟩, hr⟩ | hm
+      · obtain ⟨e, he, hcid, hk, hrc, _⟩ := g.hit rc' hr.symm
+        rw [h1, h2, ← hcid, ← hk, ← hrc]; exact hc e he
+      · exact i2 cid' k' now' rf' rc' hm
+    | put cid k rc x =>
+      have p := put_spec c cid k rc x
+      have hc' : ∀ e ∈ (c.put cid k rc x).entries, P e.cid e.ikey e.rc := by
+        intro e he
+        rcases p.sub e he with h1 | h1
+        · exact hc e h1
+        · rw [h1]; exact hput cid k rc x List.mem_cons_self
+      obtain ⟨i1, i2⟩ := ih (c.put cid k rc x) hc' (fun a b d x hm => hput a b d x (List.mem_cons_of_mem _ hm))
+      refine ⟨by simpa only [applyOps] using i1, ?_⟩
+      intro cid' k' now' rf' rc' hm
+      simp only [applyOps, List.mem_cons, Prod.mk.injEq, reduceCtorEq, false_and, false_or] at hm
+      exact i2 cid' k' now' rf' rc' hm
+
 /-! ### expiry arithmetic -/
 
 theorem entryDead_false {e now : Nat} (h : Gen.C14.entryDead e now = false) : now < e := by
